@@ -63,7 +63,7 @@ def _first_end(full):
     return None
 
 
-def h_verbatim(e, pre, nsym_before, nsym_after, star=False):
+def h_verbatim(e, pre, nsym_before, nsym_after, star=False, indoc=False):
     """\\begin{verbatim} <sym_before> <pre = concrete prefix of the end marker> <sym_after> \\end{verbatim} xy"""
     name = 'verbatim*' if star else 'verbatim'
     b = [e.char('b%d' % i) for i in range(nsym_before)]
@@ -73,6 +73,8 @@ def h_verbatim(e, pre, nsym_before, nsym_after, star=False):
     body = b + list(pre) + a
     endm = '\\end{%s}' % name
     src = list('\\begin{%s}' % name) + body + list(endm) + list('xy')
+    if indoc:
+        src = list('\\documentclass{article}\\begin{document}\\section{T}p\n\n') + src + list('\\end{document}')
     full = body + list(endm)
     n = len(endm)
     first = None
@@ -108,7 +110,7 @@ def h_verbatim(e, pre, nsym_before, nsym_after, star=False):
         e.nontriv()
 
 
-def h_verb(e, nbody, star):
+def h_verb(e, nbody, star, indoc=False):
     d = e.char('delim', 33, 126)
     e.assume(e.none_of(d, '* {'))          # any character except a letter, a blank and * (property: all \\verb delimiters); { pairs with } in plasTeX
     e.assume(api.not_(api.or_(e.between(d, 65, 90), e.between(d, 97, 122))))
@@ -118,6 +120,9 @@ def h_verb(e, nbody, star):
         e.assume(api.not_(eq(c, d)))
         body.append(c)
     src = list('p \\verb') + (['*'] if star else []) + [d] + body + [d] + list('\\emph{q} r')
+    if indoc:
+        # inside a sectioned document with a paragraph break (paragraph grouping and normalisation run)
+        src = list('\\documentclass{article}\\begin{document}\\section{T}') + src + list('\n\nnext\\end{document}')
     doc, out = _parse(e, src)
     if out is None:
         return
@@ -140,6 +145,7 @@ FORMULAS = [
     'A', 'A+B', 'A^B', 'A_B', 'A^{BC}', 'A_{BC}^{D}', 'A^B_C', '{A}^{B}', 'A^{B^{C}}', '\\alpha A', '\\alpha+\\beta', '\\alpha_A', 'A_\\alpha',
     '\\frac{A}{B}', '\\frac AB', '\\frac A{B+C}', '\\frac A2', '\\frac{A}{\\frac{B}{C}}', 'A^{\\frac B2}', '\\sqrt{A}', '\\sqrt A', '\\sqrt[3]{A}',
     '\\mathcal A', '\\mathbf{AB}', '\\mbox{A B}', '\\textrm{A}', '\\left(A\\right)', 'A<B', 'A>B', 'A\\le B', '\\sum_{A=1}^{B}C',
+    'A^\\pi B', '\\frac\\alpha\\beta A', '\\sqrt[A]\\pi B', '\\left\\langle A\\right\\rangle B', 'A_\\alpha\\beta', '\\mathcal\\alpha A',
     'A_\\ua', 'A^\\uR', '\\frac\\ua\\uh', '\\sqrt\\uh', '\\uR^A', 'A^{\\uR}', '\\ua A',
 ]
 ENVS = [('$', '$'), ('\\(', '\\)'), ('\\[', '\\]'), ('\\begin{equation}', '\\end{equation}')]
@@ -256,6 +262,9 @@ def jobs(tier, seed):
     J.append(dict(harness='h_verbatim', params=dict(pre='\\en', nsym_before=0, nsym_after=1, star=True), label='verbatim* prefix+sym', no_twin=True))
     for star in (False, True):
         J.append(dict(harness='h_verb', params=dict(nbody=2 if q else 3, star=star), label='verb star=%s' % star, no_twin=star))
+        J.append(dict(harness='h_verb', params=dict(nbody=2 if q else 3, star=star, indoc=True), label='verb star=%s in a document' % star, no_twin=True))
+    for L in (2, 3):
+        J.append(dict(harness='h_verbatim', params=dict(pre='', nsym_before=L, nsym_after=0, indoc=True), label='verbatim free L=%d in a document' % L, no_twin=True))
     chunk = 8
     for env in range(4):
         for lo in range(0, len(FORMULAS), chunk):
